@@ -99,11 +99,31 @@ def selfcheck():
         assert sha256_full(m) == hashlib.sha256(m).digest(), "sha256 reference broken"
     assert rlp_list([b"", b"\x01", b"a" * 60]) == b"\xf8\x40\x80\x01\xb8\x3c" + b"a" * 60
     assert keccak256(b"").hex().startswith("c5d24601")
+    m = bytes(range(256)) * 3
+    assert sha256_resume(sha256_midstate(m[:128]), 128, m[128:]) == hashlib.sha256(m).digest()
 
 
 def compress_coinbase(full, k):
     """RSK 'compressed coinbase transaction': BE64 count of hashed bytes | midstate | tail."""
     return (k * 64).to_bytes(8, "big") + sha256_midstate(full[:k * 64]) + full[k * 64:]
+
+
+def sha256_resume(midstate, counter, tail):
+    """SHA-256 of a message of which the first `counter` bytes (a multiple of 64) are summed up
+    in `midstate`: the tail is absorbed and the padding states the TOTAL bit length."""
+    h = list(struct.unpack(">8I", midstate))
+    total = counter + len(tail)
+    padded = bytes(tail) + b"\x80" + b"\x00" * ((55 - total) % 64) + \
+        struct.pack(">Q", (total * 8) & 0xFFFFFFFFFFFFFFFF)
+    assert len(padded) % 64 == 0
+    for i in range(0, len(padded), 64):
+        h = sha256_compress(h, padded[i:i + 64])
+    return struct.pack(">8I", *h)
+
+
+def synthetic_coinbase_hash(counter, midstate, tail):
+    """Hash of a compressed coinbase transaction given only as (count, midstate, tail)."""
+    return hashlib.sha256(sha256_resume(midstate, counter, tail)).digest()[::-1]
 
 
 def coinbase_hash(full):
